@@ -573,6 +573,84 @@ def formulas_coq(F: dict[str, Any]) -> str:
     return '\n'.join(out)
 
 
+# =============================================================================================== reified pieces
+# Decisive pieces of the formulas in a form the kernel can DECIDE things about (no reals involved): polynomials in the
+# slots of self/other as sorted lists of (integer coefficient, sorted list of atoms).  The expansion is done here; that
+# it is right is proved in rocq/Rot/RotReifyProofs.v (`ring` against the generated formula), so a wrong expansion fails
+# the build instead of weakening an obligation.
+def poly_of(ir: Any) -> dict[tuple, Fraction]:
+    t = ir[0]
+    if t == 'var':
+        pre, _, f = ir[1].partition('.')
+        if pre not in ('s', 'o') or f not in MAT_FIELDS:
+            raise TranslateError(f'polynomial over something other than matrix slots: {ir[1]}')
+        return {((pre, MAT_FIELDS.index(f)),): Fraction(1)}
+    if t == 'num':
+        return {(): Fraction(repr(ir[1])) if isinstance(ir[1], float) else Fraction(ir[1])}
+    if t == 'neg':
+        return {m: -c for m, c in poly_of(ir[1]).items()}
+    if t in ('add', 'sub'):
+        out = dict(poly_of(ir[1]))
+        for m, c in poly_of(ir[2]).items():
+            out[m] = out.get(m, Fraction(0)) + (c if t == 'add' else -c)
+        return {m: c for m, c in out.items() if c != 0}
+    if t == 'mul' or t == 'pow':
+        factors = [poly_of(ir[1])] * ir[2] if t == 'pow' else [poly_of(ir[1]), poly_of(ir[2])]
+        acc: dict[tuple, Fraction] = {(): Fraction(1)}
+        for f in factors:
+            nxt: dict[tuple, Fraction] = {}
+            for m1, c1 in acc.items():
+                for m2, c2 in f.items():
+                    m = tuple(sorted(m1 + m2, key=lambda a: (a[0] != 's', a[1])))
+                    nxt[m] = nxt.get(m, Fraction(0)) + c1 * c2
+            acc = {m: c for m, c in nxt.items() if c != 0}
+        return acc
+    raise TranslateError(f'not a polynomial: node {t}')
+
+
+def _atom_key(a: tuple) -> tuple:
+    return (a[0] != 's', a[1])
+
+
+def coq_poly(p: dict[tuple, Fraction]) -> str:
+    items = []
+    for m in sorted(p, key=lambda m: (len(m), [_atom_key(a) for a in m])):
+        c = p[m]
+        if c.denominator != 1:
+            raise TranslateError(f'polynomial with a non-integer coefficient {c}')
+        cz = str(c.numerator) if c.numerator >= 0 else f'({c.numerator})'
+        items.append(f'({cz}%Z, [' + '; '.join(('AS ' if a[0] == 's' else 'AO ') + str(a[1]) for a in m) + '])')
+    return '[' + '; '.join(items) + ']'
+
+
+def reified_coq(F: dict[str, Any]) -> tuple[str, dict]:
+    ta = F['to_angle']
+    L, op, R = ta['guard']
+    if R[0] != 'num':
+        raise TranslateError('_to_angle: the gimbal threshold is not a literal')
+    thr = Fraction(repr(R[1])) if isinstance(R[1], float) else Fraction(R[1])
+    if L[0] == 'call' and L[1] == 'sqrt':
+        lhs_p, lhs = poly_of(L[2]), 'GSqrt'
+    else:
+        lhs_p, lhs = poly_of(L), 'GPoly'
+    to_s = lambda v: 's.' + v[2:] if v.startswith('o.') else v      # noqa: E731
+    self_p = [poly_of(e) for e in F['mat_mul_self']]
+    ss_p = [poly_of(_subst(e, to_s)) for e in F['mat_mul']]
+    out = ['(* GENERATED by translate/c04_formulas.py from src/srctools/math.py (MatrixBase._to_angle guard, _mat_mul). Do not edit. *)',
+           'From Coq Require Import ZArith QArith List.', 'From SV Require Import Rot.RotGJ Rot.RotReify.', 'Import ListNotations.',
+           'Local Open Scope nat_scope.', '',
+           '(* the test that selects the non-degenerate branch of _to_angle: operator, left operand, literal *)',
+           f'Definition ta_guard_cfg : guard_cfg := GuardCfg {dict(Gt="CGt", GtE="CGe", Lt="CLt", LtE="CLe")[op]} '
+           f'({lhs} {coq_poly(lhs_p)}) ({thr.numerator}#{thr.denominator})%Q.', '',
+           '(* the nine entries of self._mat_mul(self) as executed with one object on both sides ... *)',
+           'Definition mat_mul_self_polys : list poly := [\n  ' + ';\n  '.join(coq_poly(p) for p in self_p) + '].',
+           '(* ... and of the product formula with `other` replaced by `self` *)',
+           'Definition mat_mul_ss_polys : list poly := [\n  ' + ';\n  '.join(coq_poly(p) for p in ss_p) + '].', '']
+    side = {'guard_operator': op, 'guard_left_operand': f'{lhs} {coq_poly(lhs_p)}', 'guard_literal': str(thr),
+            'alias_rows_equal': [self_p[i:i + 3] == ss_p[i:i + 3] for i in (0, 3, 6)]}
+    return '\n'.join(out), side
+
+
 # =============================================================================================== part 2: dispatch
 CONCRETE = ['Vec', 'FrozenVec', 'tuple', 'Angle', 'FrozenAngle', 'Matrix', 'FrozenMatrix']
 COQ_CLS = {'Vec': 'CVec', 'FrozenVec': 'CFrozenVec', 'tuple': 'CTuple', 'Angle': 'CAngle', 'FrozenAngle': 'CFrozenAngle',
@@ -831,6 +909,51 @@ def dispatch_rows(C: Classes, F: dict[str, Any]) -> list[dict]:
     return rows
 
 
+OPERATOR_METHODS = ('__matmul__', '__rmatmul__', '__imatmul__')
+OPERAND_CLASSES = ('VecBase', 'Vec', 'FrozenVec', 'MatrixBase', 'Matrix', 'FrozenMatrix', 'AngleBase', 'Angle', 'FrozenAngle')
+
+
+def operator_census(tree: ast.Module, C: Classes, rows: list[dict]) -> dict:
+    """Every definition of an @ operator method in math.py must (1) sit directly in the body of one of the nine
+    operand classes (so that the class table sees it), (2) not be installed or replaced by an assignment / setattr /
+    del anywhere in the module, and (3) be executed by at least one row of the table.  Fail closed otherwise."""
+    defs: dict[str, ast.FunctionDef] = {}
+    for c in OPERAND_CLASSES:
+        for f in C.cls[c].body:
+            if isinstance(f, ast.FunctionDef) and f.name in OPERATOR_METHODS \
+                    and not any(isinstance(d, ast.Name) and d.id == 'overload' for d in f.decorator_list):
+                if f'{c}.{f.name}' in defs:
+                    raise TranslateError(f'{c}.{f.name} is defined twice')
+                if [d for d in f.decorator_list]:
+                    raise TranslateError(f'{c}.{f.name} is decorated')
+                defs[f'{c}.{f.name}'] = f
+    known = {id(f) for f in defs.values()}
+    for n in ast.walk(tree):
+        if isinstance(n, (ast.FunctionDef, ast.AsyncFunctionDef)) and n.name in OPERATOR_METHODS and id(n) not in known \
+                and not any(isinstance(d, ast.Name) and d.id == 'overload' for d in n.decorator_list):
+            raise TranslateError(f'line {n.lineno}: {n.name} is defined outside the bodies of the nine operand classes')
+        if isinstance(n, (ast.Assign, ast.AugAssign, ast.AnnAssign, ast.Delete)):
+            tgts = n.targets if isinstance(n, (ast.Assign, ast.Delete)) else [n.target]
+            for t in tgts:
+                for sub in ast.walk(t):
+                    if (isinstance(sub, ast.Attribute) and sub.attr in OPERATOR_METHODS) or \
+                            (isinstance(sub, ast.Name) and sub.id in OPERATOR_METHODS):
+                        raise TranslateError(f'line {n.lineno}: an @ operator method is assigned or deleted')
+        if isinstance(n, ast.Call) and isinstance(n.func, ast.Name) and n.func.id in ('setattr', 'delattr') and len(n.args) >= 2 \
+                and isinstance(n.args[1], ast.Constant) and n.args[1].value in OPERATOR_METHODS:
+            raise TranslateError(f'line {n.lineno}: an @ operator method is installed with {n.func.id}')
+        if isinstance(n, ast.Constant) and isinstance(n.value, str) and n.value in ('@', '@=', 'matmul', 'rmatmul', 'imatmul'):
+            raise TranslateError(f'line {n.lineno}: the string {n.value!r} may feed a method template (exec)')
+        if isinstance(n, ast.Constant) and isinstance(n.value, str) and len(n.value) > 40 \
+                and any(f'def {m}' in n.value for m in OPERATOR_METHODS):
+            raise TranslateError(f'line {n.lineno}: an @ operator method is defined in a code template string')
+    reached = {t for r in rows for t in r['trace']}
+    missing = sorted(k for k in defs if k not in reached)
+    if missing:
+        raise TranslateError(f'@ operator definitions never executed by any table row: {missing}')
+    return {'definitions': sorted(defs), 'rows_per_definition': {k: sum(1 for r in rows if k in r['trace']) for k in sorted(defs)}}
+
+
 def dispatch_coq(rows: list[dict]) -> str:
     out = ['(* GENERATED by translate/c04_formulas.py from src/srctools/math.py (@ dispatch). Do not edit. *)',
            'From Coq Require Import List.', 'From SV Require Import Rot.RotDispatch.', 'Import ListNotations.', '',
@@ -864,6 +987,7 @@ def analyse() -> dict[str, Any]:
                 raise TranslateError(f'class {c} not found in math.py')
         F = extract_formulas(C)
         rows = dispatch_rows(C, F)
+        census = operator_census(tree, C, rows)
         dig = {}
         for c in ('VecBase', 'Vec', 'MatrixBase', 'Matrix', 'AngleBase', 'Angle'):
             for m in ('__matmul__', '__rmatmul__', '__imatmul__', '_rotate_angle', 'inverse'):
@@ -871,7 +995,7 @@ def analyse() -> dict[str, Any]:
                        and not any(isinstance(d, ast.Name) and d.id == 'overload' for d in f.decorator_list)]
                 if got:
                     dig[f'{c}.{m}'] = ast_digest(got[-1])
-        _CACHE.update(text=text, F=F, rows=rows, digests=dig)
+        _CACHE.update(text=text, F=F, rows=rows, digests=dig, census=census)
     return _CACHE
 
 
@@ -888,8 +1012,13 @@ def translate_formulas() -> tuple[str, dict]:
 
 def translate_dispatch() -> tuple[str, dict]:
     A = analyse()
-    side = {'rows': [{k: (v if k not in ('val', 'finalL', 'finalR') else term_coq(v)) for k, v in r.items()} for r in A['rows']]}
+    side = {'rows': [{k: (v if k not in ('val', 'finalL', 'finalR') else term_coq(v)) for k, v in r.items()} for r in A['rows']],
+            'operator_census': A['census']}
     return dispatch_coq(A['rows']), side
 
 
-GEN = {'RotFormulas_gen': translate_formulas, 'RotDispatch_gen': translate_dispatch}
+def translate_reified() -> tuple[str, dict]:
+    return reified_coq(analyse()['F'])
+
+
+GEN = {'RotFormulas_gen': translate_formulas, 'RotDispatch_gen': translate_dispatch, 'RotReified_gen': translate_reified}
